@@ -18,7 +18,7 @@
 -/
 import Bnum.Lemmas.Div
 namespace Bnum.C03
-open Bnum
+open Bnum DivL
 
 /-! ## 1. `digit::div_rem_wide` and short division -/
 
@@ -71,5 +71,350 @@ theorem divRem_unique_euclid {a b q r : Int} (hb : b ≠ 0) (h1 : a = q * b + r)
     (h2 : 0 ≤ r) (h3 : r < b.natAbs) : q = a / b ∧ r = a % b :=
   DivL.divRem_unique_euclid hb h1 h2 h3
 example : (-7 : Int) = (-2) * 3 + (-1) ∧ (-7 : Int) = (-3) * 3 + 2 := by decide
+
+
+
+/-! ## 3. the unsigned forms -/
+
+/-- C03, `BUint`: every div/rem form on a non-zero divisor returns `⌊a/b⌋` resp. `a mod b`
+    (for unsigned integers truncation, Euclid and floor coincide), never `None`, never a panic,
+    overflow flag `false` -/
+theorem u_forms {w n : Nat} {a b : List Nat} (hU : UDivSpec w n) (ha : WF w n a) (hb : WF w n b)
+    (hb0 : U w b ≠ 0) :
+    ∃ q r, WF w n q ∧ WF w n r ∧ U w q = U w a / U w b ∧ U w r = U w a % U w b ∧
+      UI.divRem w a b = .ok (q, r) ∧
+      UI.checkedDiv w a b = .ok (some q) ∧ UI.checkedRem w a b = .ok (some r) ∧
+      UI.checkedDivEuclid w a b = .ok (some q) ∧ UI.checkedRemEuclid w a b = .ok (some r) ∧
+      UI.overflowingDiv w a b = .ok (q, false) ∧ UI.overflowingRem w a b = .ok (r, false) ∧
+      UI.overflowingDivEuclid w a b = .ok (q, false) ∧
+      UI.overflowingRemEuclid w a b = .ok (r, false) ∧
+      UI.wrappingDiv w a b = .ok q ∧ UI.wrappingRem w a b = .ok r ∧
+      UI.wrappingDivEuclid w a b = .ok q ∧ UI.wrappingRemEuclid w a b = .ok r ∧
+      UI.saturatingDiv w a b = .ok q ∧ UI.div w a b = .ok q ∧ UI.rem w a b = .ok r ∧
+      UI.divEuclid w a b = .ok q ∧ UI.remEuclid w a b = .ok r ∧ UI.divFloor w a b = .ok q := by
+  obtain ⟨q, r, h, wq, wr, uq, ur⟩ := hU a b ha hb hb0
+  have hz : isZero b = false := (isZero_false_iff_U b).mpr hb0
+  refine ⟨q, r, wq, wr, uq, ur, ?_⟩
+  simp [UI.divRem, UI.checkedDiv, UI.checkedRem, UI.checkedDivEuclid, UI.checkedRemEuclid,
+    UI.overflowingDiv, UI.overflowingRem, UI.overflowingDivEuclid, UI.overflowingRemEuclid,
+    UI.wrappingDiv, UI.wrappingRem, UI.wrappingDivEuclid, UI.wrappingRemEuclid, UI.saturatingDiv,
+    UI.div, UI.rem, UI.divEuclid, UI.remEuclid, UI.divFloor, hz, h, Outcome.map, Outcome.bind,
+    Outcome.expect]
+
+/-- C03, `BUint::div_ceil`: rounds up; the `+ 1` never overflows in either build mode -/
+theorem u_divCeil_spec {w n : Nat} {a b : List Nat} (hU : UDivSpec w n) (ha : WF w n a)
+    (hb : WF w n b) (hb0 : U w b ≠ 0) (hw : 1 ≤ w) (hn : 1 ≤ n) (dbg : Bool) :
+    ∃ q, UI.divCeil dbg w a b = .ok q ∧ WF w n q ∧
+      (U w q : Int) = Spec.cdiv (U w a) (U w b) := by
+  obtain ⟨q, r, h, wq, wr, uq, ur⟩ := hU a b ha hb hb0
+  have hz : isZero b = false := (isZero_false_iff_U b).mpr hb0
+  have hb0' : (U w b : Int) ≠ 0 := by omega
+  unfold UI.divCeil UI.divRem
+  rw [hz]; simp only [Bool.false_eq_true, if_false, h]
+  rw [cdiv_of_tdiv _ _ hb0', ← Int.ofNat_tdiv, ← Int.ofNat_tmod, ← uq, ← ur]
+  have e : ((U w a : Int) < 0 ↔ (U w b : Int) < 0) := by
+    constructor <;> intro <;> omega
+  have hzr : isZero r = decide (U w r = 0) := bool_eq_decide (isZero_iff_U r)
+  rw [hzr, ha.1]
+  simp only [e, not_true, or_false]
+  by_cases hr : U w r = 0
+  · simp only [hr, decide_true, if_true, Nat.cast_zero]
+    exact ⟨_, rfl, wq, rfl⟩
+  · have hr' : ¬ ((U w r : Int) = 0) := by omega
+    simp only [hr, hr', decide_false, Bool.false_eq_true, if_false]
+    have hlt := U_lt ha
+    have hml := Nat.mod_lt (U w a) (show 0 < U w b by omega)
+    have hdm := Nat.div_add_mod (U w a) (U w b)
+    have h2 : 2 * (U w a / U w b) ≤ U w b * (U w a / U w b) :=
+      Nat.mul_le_mul_right _ (by omega)
+    obtain ⟨d, e1, e2, e3⟩ := uOpAdd_ok wq (WF_one hw hn) (by rw [U_one hn]; omega) dbg
+    rw [e1]; exact ⟨_, rfl, e2, by rw [e3, U_one hn]; push_cast; rfl⟩
+
+/-- `Spec.nextMultiple` on natural numbers -/
+theorem nextMultiple_nat (x y : Nat) (hy : y ≠ 0) :
+    Spec.nextMultiple x y = if x % y = 0 then (x : Int) else ((x + (y - x % y) : Nat) : Int) := by
+  have hml := Nat.mod_lt x (show 0 < y by omega)
+  rw [nextMultiple_eq _ _ (by omega), ← Int.natCast_mod]
+  by_cases h : x % y = 0
+  · simp [h]
+  · have h' : ¬ (((x % y : Nat) : Int) = 0) := by omega
+    rw [if_neg h', if_neg h, if_pos (by omega)]
+    omega
+
+/-- C03, `BUint::next_multiple_of` when the result is representable -/
+theorem u_nextMultipleOf_spec {w n : Nat} {a b : List Nat} (hU : UDivSpec w n) (ha : WF w n a)
+    (hb : WF w n b) (hb0 : U w b ≠ 0)
+    (hrep : Spec.nextMultiple (U w a) (U w b) < M w n) (dbg : Bool) :
+    ∃ r, UI.nextMultipleOf dbg w a b = .ok r ∧ WF w n r ∧
+      (U w r : Int) = Spec.nextMultiple (U w a) (U w b) := by
+  obtain ⟨q, r, h, wq, wr, uq, ur⟩ := hU a b ha hb hb0
+  have hz : isZero b = false := (isZero_false_iff_U b).mpr hb0
+  have hml := Nat.mod_lt (U w a) (show 0 < U w b by omega)
+  unfold UI.nextMultipleOf UI.wrappingRem UI.checkedRem
+  rw [hz]; simp only [Bool.false_eq_true, if_false, h, Outcome.map, Outcome.bind, Outcome.expect]
+  rw [nextMultiple_nat _ _ hb0, ← ur] at hrep ⊢
+  have hzr : isZero r = decide (U w r = 0) := bool_eq_decide (isZero_iff_U r)
+  rw [hzr]
+  by_cases hr : U w r = 0
+  · simp only [hr, decide_true, if_true]
+    exact ⟨_, rfl, ha, rfl⟩
+  · simp only [hr, decide_false, Bool.false_eq_true, if_false] at hrep ⊢
+    obtain ⟨s, c1, c2, c3⟩ := uOpSub_ok hb wr (by omega) dbg
+    rw [c1]; simp only
+    obtain ⟨d, e1, e2, e3⟩ := uOpAdd_ok ha c2 (by rw [c3]; exact_mod_cast hrep) dbg
+    exact ⟨_, e1, e2, by rw [e3, c3]⟩
+
+/-- C03, `BUint::checked_next_multiple_of`: `None` exactly when the multiple is not representable -/
+theorem u_checkedNextMultipleOf_spec {w n : Nat} {a b : List Nat} (hU : UDivSpec w n)
+    (ha : WF w n a) (hb : WF w n b) (hb0 : U w b ≠ 0) (dbg : Bool) :
+    ∃ o, UI.checkedNextMultipleOf dbg w a b = .ok o ∧
+      (o = none ↔ ¬ repU (M w n) (Spec.nextMultiple (U w a) (U w b))) ∧
+      (∀ r, o = some r → WF w n r ∧ (U w r : Int) = Spec.nextMultiple (U w a) (U w b)) := by
+  obtain ⟨q, r, h, wq, wr, uq, ur⟩ := hU a b ha hb hb0
+  have hz : isZero b = false := (isZero_false_iff_U b).mpr hb0
+  have hml := Nat.mod_lt (U w a) (show 0 < U w b by omega)
+  unfold UI.checkedNextMultipleOf UI.checkedRem
+  rw [hz]; simp only [Bool.false_eq_true, if_false, h, Outcome.map]
+  rw [nextMultiple_nat _ _ hb0, ← ur]
+  have hzr : isZero r = decide (U w r = 0) := bool_eq_decide (isZero_iff_U r)
+  rw [hzr]
+  by_cases hr : U w r = 0
+  · simp only [hr, decide_true, if_true]
+    refine ⟨_, rfl, ?_, ?_⟩
+    · have := U_lt ha; simp [repU]; omega
+    · intro r' hr'; cases hr'; exact ⟨ha, rfl⟩
+  · simp only [hr, decide_false, Bool.false_eq_true, if_false]
+    obtain ⟨s, c1, c2, c3⟩ := uOpSub_ok hb wr (by omega) dbg
+    rw [c1]; simp only
+    have := (UI.overflowingAdd_spec ha c2).checked
+    rw [c3] at this
+    refine ⟨_, rfl, ?_⟩
+    unfold UI.checkedAdd
+    push_cast at this ⊢
+    exact this
+
+/-- C03: a zero divisor yields `None` from every checked form of `BUint` and a panic from all
+    other forms -/
+theorem u_zero_divisor {w : Nat} {a b : List Nat} (hb0 : U w b = 0) (dbg : Bool) :
+    UI.checkedDiv w a b = .ok none ∧ UI.checkedRem w a b = .ok none ∧
+    UI.checkedDivEuclid w a b = .ok none ∧ UI.checkedRemEuclid w a b = .ok none ∧
+    UI.checkedNextMultipleOf dbg w a b = .ok none ∧
+    UI.wrappingDiv w a b = .panic ∧ UI.wrappingRem w a b = .panic ∧
+    UI.wrappingDivEuclid w a b = .panic ∧ UI.wrappingRemEuclid w a b = .panic ∧
+    UI.overflowingDiv w a b = .panic ∧ UI.overflowingRem w a b = .panic ∧
+    UI.overflowingDivEuclid w a b = .panic ∧ UI.overflowingRemEuclid w a b = .panic ∧
+    UI.saturatingDiv w a b = .panic ∧ UI.div w a b = .panic ∧ UI.rem w a b = .panic ∧
+    UI.divEuclid w a b = .panic ∧ UI.remEuclid w a b = .panic ∧ UI.divFloor w a b = .panic ∧
+    UI.divCeil dbg w a b = .panic ∧ UI.nextMultipleOf dbg w a b = .panic := by
+  have hz : isZero b = true := (isZero_iff_U b).mpr hb0
+  simp [UI.divRem, UI.checkedDiv, UI.checkedRem, UI.checkedDivEuclid, UI.checkedRemEuclid,
+    UI.overflowingDiv, UI.overflowingRem, UI.overflowingDivEuclid, UI.overflowingRemEuclid,
+    UI.wrappingDiv, UI.wrappingRem, UI.wrappingDivEuclid, UI.wrappingRemEuclid, UI.saturatingDiv,
+    UI.div, UI.rem, UI.divEuclid, UI.remEuclid, UI.divFloor, UI.divCeil, UI.nextMultipleOf,
+    UI.checkedNextMultipleOf, hz, Outcome.map, Outcome.bind, Outcome.expect]
+
+
+
+
+/-! ## 4. the signed layer -/
+
+/-- C03, `BInt::div_rem_unchecked`: truncated quotient and remainder (sign of the dividend),
+    no panic in either build mode -/
+theorem i_divRem_spec {w n : Nat} {a b : List Nat} (hw : 2 ≤ w) (hn : 1 ≤ n)
+    (hU : UDivSpec w n) (ha : WF w n a) (hb : WF w n b) (hb0 : S w b ≠ 0)
+    (hov : ¬ (S w a = -((M w n / 2 : Nat) : Int) ∧ S w b = -1)) (dbg : Bool) :
+    ∃ q r, II.divRemUnchecked dbg w a b = .ok (q, r) ∧ WF w n q ∧ WF w n r ∧
+      S w q = (S w a).tdiv (S w b) ∧ S w r = (S w a).tmod (S w b) :=
+  II.i_divRemUnchecked_spec hw hn hU ha hb hb0 hov dbg
+
+/-- C03, `BInt`: all div/rem forms on a non-zero divisor other than `MIN / -1`:
+    truncation for `div`/`rem`, the Euclidean pair for `*_euclid`; never `None`, never a panic,
+    overflow flag `false` -/
+theorem i_forms {w n : Nat} {a b : List Nat} (hw : 2 ≤ w) (hn : 1 ≤ n)
+    (hU : UDivSpec w n) (ha : WF w n a) (hb : WF w n b) (hb0 : S w b ≠ 0)
+    (hov : ¬ (S w a = -((M w n / 2 : Nat) : Int) ∧ S w b = -1)) (dbg : Bool) :
+    ∃ q r qe re, WF w n q ∧ WF w n r ∧ WF w n qe ∧ WF w n re ∧
+      S w q = (S w a).tdiv (S w b) ∧ S w r = (S w a).tmod (S w b) ∧
+      S w qe = S w a / S w b ∧ S w re = S w a % S w b ∧
+      II.checkedDiv dbg w a b = .ok (some q) ∧ II.checkedRem dbg w a b = .ok (some r) ∧
+      II.checkedDivEuclid dbg w a b = .ok (some qe) ∧
+      II.checkedRemEuclid dbg w a b = .ok (some re) ∧
+      II.overflowingDiv dbg w a b = .ok (q, false) ∧ II.overflowingRem dbg w a b = .ok (r, false) ∧
+      II.overflowingDivEuclid dbg w a b = .ok (qe, false) ∧
+      II.overflowingRemEuclid dbg w a b = .ok (re, false) ∧
+      II.wrappingDiv dbg w a b = .ok q ∧ II.wrappingRem dbg w a b = .ok r ∧
+      II.wrappingDivEuclid dbg w a b = .ok qe ∧ II.wrappingRemEuclid dbg w a b = .ok re ∧
+      II.saturatingDiv dbg w a b = .ok q ∧ II.div dbg w a b = .ok q ∧ II.rem dbg w a b = .ok r ∧
+      II.divEuclid dbg w a b = .ok qe ∧ II.remEuclid dbg w a b = .ok re := by
+  have hw1 : 1 ≤ w := by omega
+  obtain ⟨q, h1, wq, sq⟩ := II.i_overflowingDiv_spec hw hn hU ha hb hb0 hov dbg
+  obtain ⟨r, h2, wr, sr⟩ := II.i_overflowingRem_spec hw hn hU ha hb hb0 hov dbg
+  obtain ⟨qe, h3, wqe, sqe⟩ := II.i_overflowingDivEuclid_spec hw hn hU ha hb hb0 hov dbg
+  obtain ⟨re, h4, wre, sre⟩ := II.i_overflowingRemEuclid_spec hw hn hU ha hb hb0 hov dbg
+  obtain ⟨q0, r0, h5, wq0, wr0, sq0, sr0⟩ := II.i_divRemUnchecked_spec hw hn hU ha hb hb0 hov dbg
+  have eq0 : q0 = q := S_inj wq0 wq (by rw [sq0, sq])
+  have er0 : r0 = r := S_inj wr0 wr (by rw [sr0, sr])
+  subst eq0; subst er0
+  have hz := II.isZero_false hb hb0
+  have hg := II.ovfGuard_false hw1 hn ha hb hov
+  have hgp : II.eq a (iMin w n) = true → II.eq b (II.negOne w n) = false := by
+    intro h; rw [h] at hg; simpa using hg
+  have hgq : ¬ (II.eq a (iMin w n) = true ∧ II.eq b (II.negOne w n) = true) := by
+    rintro ⟨x, y⟩; rw [hgp x] at y; cases y
+  refine ⟨q0, r0, qe, re, wq, wr, wqe, wre, sq, sr, sqe, sre, ?_⟩
+  simp [II.ne, hgq, II.checkedDiv, II.checkedRem, II.checkedDivEuclid, II.checkedRemEuclid, II.wrappingDiv,
+    II.wrappingRem, II.wrappingDivEuclid, II.wrappingRemEuclid, II.saturatingDiv, II.div, II.rem,
+    II.divEuclid, II.remEuclid, hz, h1, h2, h3, h4, h5, ha.1, Outcome.map, tupleToOption]
+
+/-- C03, `BInt::div_floor`: rounds toward negative infinity (`Int.fdiv`) -/
+theorem i_divFloor_spec {w n : Nat} {a b : List Nat} (hw : 2 ≤ w) (hn : 1 ≤ n)
+    (hU : UDivSpec w n) (ha : WF w n a) (hb : WF w n b) (hb0 : S w b ≠ 0)
+    (hov : ¬ (S w a = -((M w n / 2 : Nat) : Int) ∧ S w b = -1)) (dbg : Bool) :
+    ∃ q, II.divFloor dbg w a b = .ok q ∧ WF w n q ∧ S w q = (S w a).fdiv (S w b) :=
+  II.i_divFloor_spec hw hn hU ha hb hb0 hov dbg
+
+/-- C03, `BInt::div_ceil`: rounds toward positive infinity -/
+theorem i_divCeil_spec {w n : Nat} {a b : List Nat} (hw : 2 ≤ w) (hn : 1 ≤ n)
+    (hU : UDivSpec w n) (ha : WF w n a) (hb : WF w n b) (hb0 : S w b ≠ 0)
+    (hov : ¬ (S w a = -((M w n / 2 : Nat) : Int) ∧ S w b = -1)) (dbg : Bool) :
+    ∃ q, II.divCeil dbg w a b = .ok q ∧ WF w n q ∧ S w q = Spec.cdiv (S w a) (S w b) :=
+  II.i_divCeil_spec hw hn hU ha hb hb0 hov dbg
+
+/-- what `Spec.cdiv` and `Spec.nextMultiple` mean: the ceiling, and the multiple of `b` at or beyond
+    `a` in the direction of the sign of `b`, less than `|b|` away -/
+theorem cdiv_nextMultiple_meaning (a b : Int) (hb : b ≠ 0) :
+    (0 < b → b * (Spec.cdiv a b - 1) < a ∧ a ≤ b * Spec.cdiv a b) ∧
+    (b < 0 → b * Spec.cdiv a b ≤ a ∧ a < b * (Spec.cdiv a b - 1)) ∧
+    b ∣ Spec.nextMultiple a b ∧
+    (0 < b → a ≤ Spec.nextMultiple a b ∧ Spec.nextMultiple a b < a + b) ∧
+    (b < 0 → a + b < Spec.nextMultiple a b ∧ Spec.nextMultiple a b ≤ a) := by
+  have key := nextMultiple_eq a b hb
+  have hnn : 0 ≤ a % b := Int.emod_nonneg a hb
+  have hlt : a % b < b.natAbs := by have := Int.emod_lt a hb; omega
+  have hdm := Int.mul_ediv_add_emod a b
+  have hdvd : b ∣ Spec.nextMultiple a b := ⟨Spec.cdiv a b, rfl⟩
+  have hmul : b * (Spec.cdiv a b - 1) = Spec.nextMultiple a b - b := by
+    unfold Spec.nextMultiple; rw [Int.mul_sub]; omega
+  rw [hmul]
+  change _ ∧ _ ∧ _ ∧ _ ∧ _
+  have hnm : b * Spec.cdiv a b = Spec.nextMultiple a b := rfl
+  rw [hnm]
+  refine ⟨?_, ?_, hdvd, ?_, ?_⟩ <;> intro hs <;> rw [key] <;> split_ifs <;> omega
+
+/-- C03, `BInt::next_multiple_of` when the result is representable -/
+theorem i_nextMultipleOf_spec {w n : Nat} {a b : List Nat} (hw : 2 ≤ w) (hn : 1 ≤ n)
+    (hU : UDivSpec w n) (ha : WF w n a) (hb : WF w n b) (hb0 : S w b ≠ 0)
+    (hrep : repS (M w n) (Spec.nextMultiple (S w a) (S w b))) (dbg : Bool) :
+    ∃ r, II.nextMultipleOf dbg w a b = .ok r ∧ WF w n r ∧
+      S w r = Spec.nextMultiple (S w a) (S w b) :=
+  II.i_nextMultipleOf_spec hw hn hU ha hb hb0 hrep dbg
+
+/-- C03, `BInt::checked_next_multiple_of`: `None` exactly when the multiple is not representable -/
+theorem i_checkedNextMultipleOf_spec {w n : Nat} {a b : List Nat} (hw : 2 ≤ w) (hn : 1 ≤ n)
+    (hU : UDivSpec w n) (ha : WF w n a) (hb : WF w n b) (hb0 : S w b ≠ 0) (dbg : Bool) :
+    ∃ o, II.checkedNextMultipleOf dbg w a b = .ok o ∧
+      (o = none ↔ ¬ repS (M w n) (Spec.nextMultiple (S w a) (S w b))) ∧
+      (∀ r, o = some r → WF w n r ∧ S w r = Spec.nextMultiple (S w a) (S w b)) :=
+  II.i_checkedNextMultipleOf_spec hw hn hU ha hb hb0 dbg
+
+/-- C03: a zero divisor yields `None` from every checked form of `BInt` and a panic elsewhere -/
+theorem i_zero_divisor {w n : Nat} {a b : List Nat} (hw : 2 ≤ w) (hn : 1 ≤ n) (ha : WF w n a)
+    (hb : WF w n b) (hb0 : S w b = 0) (dbg : Bool) :
+    II.checkedDiv dbg w a b = .ok none ∧ II.checkedRem dbg w a b = .ok none ∧
+    II.checkedDivEuclid dbg w a b = .ok none ∧ II.checkedRemEuclid dbg w a b = .ok none ∧
+    II.checkedNextMultipleOf dbg w a b = .ok none ∧
+    II.overflowingDiv dbg w a b = .panic ∧ II.overflowingRem dbg w a b = .panic ∧
+    II.overflowingDivEuclid dbg w a b = .panic ∧ II.overflowingRemEuclid dbg w a b = .panic ∧
+    II.wrappingDiv dbg w a b = .panic ∧ II.wrappingRem dbg w a b = .panic ∧
+    II.wrappingDivEuclid dbg w a b = .panic ∧ II.wrappingRemEuclid dbg w a b = .panic ∧
+    II.saturatingDiv dbg w a b = .panic ∧ II.div dbg w a b = .panic ∧ II.rem dbg w a b = .panic ∧
+    II.divEuclid dbg w a b = .panic ∧ II.remEuclid dbg w a b = .panic ∧
+    II.divFloor dbg w a b = .panic ∧ II.divCeil dbg w a b = .panic ∧
+    II.nextMultipleOf dbg w a b = .panic := by
+  have hw1 : 1 ≤ w := by omega
+  have hz : isZero b = true := (II.isZero_iff_S hb).mpr hb0
+  have hg : (II.eq a (iMin w n) && II.eq b (II.negOne w n)) = false :=
+    II.ovfGuard_false hw1 hn ha hb (by omega)
+  have hgp : II.eq a (iMin w n) = true → II.eq b (II.negOne w n) = false := by
+    intro h; rw [h] at hg; simpa using hg
+  have hgq : ¬ (II.eq a (iMin w n) = true ∧ II.eq b (II.negOne w n) = true) := by
+    rintro ⟨x, y⟩; rw [hgp x] at y; cases y
+  simp [II.ne, hgq, II.checkedDiv, II.checkedRem, II.checkedDivEuclid, II.checkedRemEuclid, II.wrappingDiv,
+    II.wrappingRem, II.wrappingDivEuclid, II.wrappingRemEuclid, II.saturatingDiv, II.div, II.rem,
+    II.divEuclid, II.remEuclid, II.overflowingDiv, II.overflowingRem, II.overflowingDivEuclid,
+    II.overflowingRemEuclid, II.checkedNextMultipleOf, II.nextMultipleOf, II.divFloor, II.divCeil,
+    hz, ha.1, Outcome.map]
+
+/-- C03: signed `MIN / -1` is reported as overflow: `None` from the checked forms, `(MIN, true)` /
+    `(0, true)` from the overflowing forms, `MIN` / `0` from the wrapping forms, `MAX` from
+    `saturating_div`, and a panic from `div`, `rem`, `div_euclid`, `rem_euclid` -/
+theorem i_min_neg_one {w n : Nat} {a b : List Nat} (hw : 2 ≤ w) (hn : 1 ≤ n) (ha : WF w n a)
+    (hb : WF w n b) (hov : S w a = -((M w n / 2 : Nat) : Int) ∧ S w b = -1) (dbg : Bool) :
+    a = iMin w n ∧
+    II.checkedDiv dbg w a b = .ok none ∧ II.checkedRem dbg w a b = .ok none ∧
+    II.checkedDivEuclid dbg w a b = .ok none ∧ II.checkedRemEuclid dbg w a b = .ok none ∧
+    II.overflowingDiv dbg w a b = .ok (iMin w n, true) ∧
+    II.overflowingRem dbg w a b = .ok (zero n, true) ∧
+    II.overflowingDivEuclid dbg w a b = .ok (iMin w n, true) ∧
+    II.overflowingRemEuclid dbg w a b = .ok (zero n, true) ∧
+    II.wrappingDiv dbg w a b = .ok (iMin w n) ∧ II.wrappingRem dbg w a b = .ok (zero n) ∧
+    II.wrappingDivEuclid dbg w a b = .ok (iMin w n) ∧
+    II.wrappingRemEuclid dbg w a b = .ok (zero n) ∧
+    II.saturatingDiv dbg w a b = .ok (iMax w n) ∧
+    II.div dbg w a b = .panic ∧ II.rem dbg w a b = .panic ∧
+    II.divEuclid dbg w a b = .panic ∧ II.remEuclid dbg w a b = .panic := by
+  have hw1 : 1 ≤ w := by omega
+  have hz : isZero b = false := II.isZero_false hb (by omega)
+  have hg : (II.eq a (iMin w n) && II.eq b (II.negOne w n)) = true :=
+    (II.ovfGuard_iff hw1 hn ha hb).mpr hov
+  have e : a = iMin w n := S_inj ha (WF_iMin hw1 hn) (by rw [hov.1, S_iMin hw1 hn])
+  refine ⟨e, ?_⟩
+  have hlen : (iMin w n).length = n := (WF_iMin hw1 hn).1
+  subst e
+  rw [Bool.and_eq_true] at hg
+  obtain ⟨g1, g2⟩ := hg
+  simp [II.ne, g1, g2, II.checkedDiv, II.checkedRem, II.checkedDivEuclid, II.checkedRemEuclid, II.wrappingDiv,
+    II.wrappingRem, II.wrappingDivEuclid, II.wrappingRemEuclid, II.saturatingDiv, II.div, II.rem,
+    II.divEuclid, II.remEuclid, II.overflowingDiv, II.overflowingRem, II.overflowingDivEuclid,
+    II.overflowingRemEuclid, hz, hlen, Outcome.map, tupleToOption]
+
+
+/-! ## 5. the hypotheses are satisfiable; concrete evaluations by the kernel -/
+
+/-- `UDivSpec` holds outright for single-digit integers (`n = 1`), so sections 3–4 are unconditional
+    there; for `n ≥ 2` it follows from `KnuthD_correct w` -/
+theorem udivspec_one {w : Nat} (hw : 1 ≤ w) : UDivSpec w 1 := UDivSpec_one hw
+theorem udivspec_of_knuthD {w n : Nat} (hK : KnuthD_correct w) (hw : 1 ≤ w) (hn : 1 ≤ n) :
+    UDivSpec w n := UDivSpec_of_KnuthD hK hw hn
+
+-- operands satisfying the hypotheses of `u_forms` / `i_forms` (w = 8, n = 2: −7 and 2)
+example : WF 8 2 [0xf9, 0xff] ∧ WF 8 2 [0x02, 0x00] ∧ S 8 [0xf9, 0xff] = -7 ∧ S 8 [0x02, 0x00] = 2 ∧
+    S 8 [0x02, 0x00] ≠ 0 ∧ ¬ (S 8 [0xf9, 0xff] = -((M 8 2 / 2 : Nat) : Int) ∧ S 8 [0x02, 0x00] = -1) := by
+  decide
+-- −7 / 2: truncation −3 rem −1; Euclid −4 rem 1; floor −4; ceil −3; next multiple −6
+example : II.overflowingDiv true 8 [0xf9, 0xff] [0x02, 0x00] = .ok ([0xfd, 0xff], false) ∧
+    II.overflowingRem true 8 [0xf9, 0xff] [0x02, 0x00] = .ok ([0xff, 0xff], false) ∧
+    II.overflowingDivEuclid true 8 [0xf9, 0xff] [0x02, 0x00] = .ok ([0xfc, 0xff], false) ∧
+    II.overflowingRemEuclid true 8 [0xf9, 0xff] [0x02, 0x00] = .ok ([0x01, 0x00], false) ∧
+    II.divFloor true 8 [0xf9, 0xff] [0x02, 0x00] = .ok [0xfc, 0xff] ∧
+    II.divCeil true 8 [0xf9, 0xff] [0x02, 0x00] = .ok [0xfd, 0xff] ∧
+    II.nextMultipleOf true 8 [0xf9, 0xff] [0x02, 0x00] = .ok [0xfa, 0xff] := by decide
+-- MIN / −1 (hypothesis of `i_min_neg_one`) and a zero divisor
+example : WF 8 2 [0x00, 0x80] ∧ WF 8 2 [0xff, 0xff] ∧
+    S 8 [0x00, 0x80] = -((M 8 2 / 2 : Nat) : Int) ∧ S 8 [0xff, 0xff] = -1 := by decide
+example : II.checkedDiv false 8 [0x00, 0x80] [0xff, 0xff] = .ok none ∧
+    II.saturatingDiv false 8 [0x00, 0x80] [0xff, 0xff] = .ok [0xff, 0x7f] ∧
+    II.div false 8 [0x00, 0x80] [0xff, 0xff] = .panic ∧
+    II.checkedRem true 8 [0x05, 0x00] [0x00, 0x00] = .ok none ∧
+    II.rem true 8 [0x05, 0x00] [0x00, 0x00] = .panic := by decide
+-- representability hypothesis of `*_nextMultipleOf_spec`, and its failure (overflow: debug panics,
+-- release wraps, checked gives None)
+example : repS (M 8 1) (Spec.nextMultiple 100 7) ∧ ¬ repS (M 8 1) (Spec.nextMultiple 127 7) := by
+  decide
+example : II.nextMultipleOf true 8 [127] [7] = .panic ∧ II.nextMultipleOf false 8 [127] [7] = .ok [133] ∧
+    II.checkedNextMultipleOf true 8 [127] [7] = .ok none ∧
+    UI.nextMultipleOf true 8 [254] [7] = .panic ∧ UI.nextMultipleOf false 8 [254] [7] = .ok [3] ∧
+    UI.checkedNextMultipleOf true 8 [254] [7] = .ok none := by
+  decide
 
 end Bnum.C03
